@@ -120,17 +120,21 @@ def check_nowiki(ctx, c, e):
         out.append(("parse_single_text_node", d, wantd))
     # the same through the expanding parse modes (the text is expanded first and parsed afterwards): nothing of c may be
     # interpreted on the second pass either
-    for mode in ({"expand_all": True}, {"pre_expand": True}):
+    for label, mode in (("expand_all", {"expand_all": True}), ("pre_expand", {"pre_expand": True}),
+                        # (without pre_expand a selection does not restrict anything: everything is expanded)
+                        ("additional_expand", {"additional_expand": {"zz"}}),
+                        ("additional_expand_other+pre_expand", {"additional_expand": {"zz"}, "pre_expand": True}),
+                        ("additional_expand_t+pre_expand", {"additional_expand": {"t"}, "pre_expand": True})):
         ctx.start_page("Tt")
         try:
             d2 = dump(ctx.parse(text, **mode))
         except Exception as ex:
             d2 = "EXC " + type(ex).__name__
         want2 = wantd
-        if e == "arg" and mode.get("expand_all"):
+        if e == "arg" and (mode.get("expand_all") or "t" in mode.get("additional_expand", ()) or not mode.get("pre_expand")):
             want2 = ["ROOT", {"largs": [["Tt"]]}, ["[" + q + "]"]]
         if d2 != want2:
-            out.append(("parse_single_text_node:" + sorted(mode)[0], d2, want2))
+            out.append(("parse_single_text_node:" + label, d2, want2))
     return text, out
 
 
